@@ -110,44 +110,86 @@ quick: yes
 funcs: spifconf_shell_expand
 */
 /*@unit
-name: exact_call
-define: U_EXACT, A_SPACE, A_PCT, A_PAREN, NMAX=8, BUFF=32, VERIF_EXACT_LIBC, VERIF_OWN_STRLEN, VERIF_OWN_STRCMP, VERIF_OWN_STRDUP, VERIF_OWN_STRCHR
+name: exact_call_args
+define: U_EXACT, A_SPACE, A_PCT, A_PAREN, SHAPE="?%a(??)?", NMAX=8, BUFF=32, VERIF_EXACT_LIBC, VERIF_OWN_STRLEN, VERIF_OWN_STRCMP, VERIF_OWN_STRDUP, VERIF_OWN_STRCHR
 src: conf.c
 tier: B
-bound: input <= 8 characters over {a, space, %, (, )}, every % starts a balanced call of the built-in a, nesting <= 2; line-buffer limit CONFIG_BUFF scaled to 32 bytes (stated re-binding)
+bound: inputs of the shape ?%a(??)? -- each ? any of {a, space, %, (, )} -- in which every % starts a balanced call of the built-in a; line-buffer limit CONFIG_BUFF scaled to 32 bytes (stated re-binding)
 unwind: 10
-flags: --unwindset strlen.0:16,strcpy.0:16,harness.1:42,vb_a.0:16,spiftool_safe_strncpy.0:16,mk_str.0:6,strncasecmp.0:4,spifconf_shell_expand:3
+flags: --unwindset strlen.0:18,strcpy.0:18,harness.1:42,vb_a.0:18,spiftool_safe_strncpy.0:18,mk_str.0:6,strncasecmp.0:4,spifconf_shell_expand:2
 objbits: 10
 backend: sat
-timeout: 900
+timeout: 600
+quick: yes
+funcs: spifconf_shell_expand
+*/
+/*@unit
+name: exact_call_empty
+define: U_EXACT, A_SPACE, A_PCT, A_PAREN, SHAPE="?%a()?", NMAX=6, BUFF=32, VERIF_EXACT_LIBC, VERIF_OWN_STRLEN, VERIF_OWN_STRCMP, VERIF_OWN_STRDUP, VERIF_OWN_STRCHR
+src: conf.c
+tier: B
+bound: inputs of the shape ?%a()? -- each ? any of {a, space, %, (, )} -- in which every % starts a balanced call; line-buffer limit CONFIG_BUFF scaled to 32 bytes (stated re-binding)
+unwind: 8
+flags: --unwindset strlen.0:16,strcpy.0:16,harness.1:42,vb_a.0:16,spiftool_safe_strncpy.0:16,mk_str.0:6,strncasecmp.0:4,spifconf_shell_expand:1
+objbits: 10
+backend: sat
+timeout: 600
+quick: yes
+funcs: spifconf_shell_expand
+*/
+/*@unit
+name: exact_call_nested
+define: U_EXACT, A_SPACE, A_PCT, A_PAREN, SHAPE="%a(?%a(?))?", NMAX=11, BUFF=32, VERIF_EXACT_LIBC, VERIF_OWN_STRLEN, VERIF_OWN_STRCMP, VERIF_OWN_STRDUP, VERIF_OWN_STRCHR
+src: conf.c
+tier: B
+bound: inputs of the shape %a(?%a(?))? -- each ? any of {a, space, %, (, )} -- nested calls, innermost first; line-buffer limit CONFIG_BUFF scaled to 32 bytes (stated re-binding)
+unwind: 13
+flags: --unwindset strlen.0:20,strcpy.0:20,harness.1:42,vb_a.0:20,spiftool_safe_strncpy.0:20,mk_str.0:6,strncasecmp.0:4,spifconf_shell_expand:2
+objbits: 10
+backend: sat
+timeout: 600
+quick: yes
+funcs: spifconf_shell_expand
+*/
+/*@unit
+name: exact_call_seq
+define: U_EXACT, A_SPACE, A_PCT, A_PAREN, SHAPE="%a(?)?%a(?)", NMAX=11, BUFF=32, VERIF_EXACT_LIBC, VERIF_OWN_STRLEN, VERIF_OWN_STRCMP, VERIF_OWN_STRDUP, VERIF_OWN_STRCHR
+src: conf.c
+tier: B
+bound: inputs of the shape %a(?)?%a(?) -- each ? any of {a, space, %, (, )}; line-buffer limit CONFIG_BUFF scaled to 32 bytes (stated re-binding)
+unwind: 13
+flags: --unwindset strlen.0:20,strcpy.0:20,harness.1:42,vb_a.0:20,spiftool_safe_strncpy.0:20,mk_str.0:6,strncasecmp.0:4,spifconf_shell_expand:1
+objbits: 10
+backend: sat
+timeout: 600
 quick: yes
 funcs: spifconf_shell_expand
 */
 /*@unit
 name: exact_call_lone_pct
-define: U_EXACT, A_SPACE, A_PCT, A_PAREN, D_FLAGS=RF_LONEPCT, D_NEED=RF_LONEPCT, NMAX=6, BUFF=32, VERIF_EXACT_LIBC, VERIF_OWN_STRLEN, VERIF_OWN_STRCMP, VERIF_OWN_STRDUP, VERIF_OWN_STRCHR
+define: U_EXACT, A_SPACE, A_PCT, A_PAREN, D_FLAGS=RF_LONEPCT, D_NEED=RF_LONEPCT, SHAPE="?%???", NMAX=5, BUFF=32, VERIF_EXACT_LIBC, VERIF_OWN_STRLEN, VERIF_OWN_STRCMP, VERIF_OWN_STRDUP, VERIF_OWN_STRCHR
 src: conf.c
 tier: B
-bound: input <= 6 characters over {a, space, %, (, )} with a % that starts no call; line-buffer limit CONFIG_BUFF scaled to 32 bytes (stated re-binding)
-unwind: 8
-flags: --unwindset strlen.0:14,strcpy.0:14,harness.1:42,vb_a.0:14,spiftool_safe_strncpy.0:14,mk_str.0:6,strncasecmp.0:4,spifconf_shell_expand:2
+bound: inputs of the shape ?%??? -- each ? any of {a, space, %, (, )} -- with a % that starts no call (and is not followed by 'a )'); line-buffer limit CONFIG_BUFF scaled to 32 bytes (stated re-binding)
+unwind: 7
+flags: --unwindset strlen.0:14,strcpy.0:14,harness.1:42,vb_a.0:14,spiftool_safe_strncpy.0:14,mk_str.0:6,strncasecmp.0:4,spifconf_shell_expand:1
 objbits: 10
 backend: sat
-timeout: 900
+timeout: 600
 quick: yes
 funcs: spifconf_shell_expand
 */
 /*@unit
-name: exact_mixed
-define: U_EXACT, A_SPACE, A_TILDE, A_BS, A_PCT, A_PAREN, A_SQ, A_DQ, NMAX=6, BUFF=32, VERIF_EXACT_LIBC, VERIF_OWN_STRLEN, VERIF_OWN_STRCMP, VERIF_OWN_STRDUP, VERIF_OWN_STRCHR
+name: exact_call_mixed
+define: U_EXACT, A_SPACE, A_TILDE, A_BS, A_SQ, A_DQ, A_PCT_FIXED, SHAPE="?%a(???)?", NMAX=9, BUFF=32, VERIF_EXACT_LIBC, VERIF_OWN_STRLEN, VERIF_OWN_STRCMP, VERIF_OWN_STRDUP, VERIF_OWN_STRCHR
 src: conf.c
 tier: B
-bound: input <= 6 characters over {a, space, ~, \, %, (, ), ', "}: constructs inside call arguments and quotes; no trailing backslash, every % a balanced call; line-buffer limit CONFIG_BUFF scaled to 32 bytes (stated re-binding)
-unwind: 8
-flags: --unwindset strlen.0:22,strcpy.0:22,harness.1:42,vb_a.0:22,spiftool_safe_strncpy.0:22,mk_str.0:6,strncasecmp.0:4,spifconf_shell_expand:2
+bound: inputs of the shape ?%a(???)? -- each ? any of {a, space, ~, backslash, ', "}: quotes, tildes and escapes inside and around call arguments; line-buffer limit CONFIG_BUFF scaled to 32 bytes (stated re-binding)
+unwind: 11
+flags: --unwindset strlen.0:24,strcpy.0:24,harness.1:42,vb_a.0:24,spiftool_safe_strncpy.0:24,mk_str.0:6,strncasecmp.0:4,spifconf_shell_expand:1
 objbits: 10
 backend: sat
-timeout: 900
+timeout: 600
 quick: yes
 funcs: spifconf_shell_expand
 */
@@ -281,7 +323,7 @@ static size_t ref_expand(const char *in, size_t len, char *out, int depth)
             }
         }
 #endif
-#ifdef A_PCT
+#if defined(A_PCT) || defined(A_PCT_FIXED)
         else if (c == '%') {
             if (i + 2 < len && tolower(in[i + 1]) == 'a' && in[i + 2] == '(') {       /* %a( ... ) */
                 size_t a = i + 3, e, depth = 1;
@@ -355,6 +397,17 @@ static size_t w_len;
 static void pick_input(void)                          /* w_in: arbitrary text of <= NMAX characters */
 {
     size_t i;
+#ifdef SHAPE
+    /* shape-constrained behaviour: the structural characters are fixed, each ? is any character of the alphabet */
+    static const char shape[] = SHAPE;
+    w_len = sizeof(shape) - 1;
+    for (i = 0; i < NMAX; i++) {
+        if (shape[i] == '?') { char c = nondet_char(); __CPROVER_assume(in_alphabet(c)); w_in[i] = c; }
+        else w_in[i] = shape[i];
+    }
+    w_in[NMAX] = 0;
+    return;
+#endif
     w_len = nondet_size_t();
     __CPROVER_assume(w_len <= NMAX);
     for (i = 0; i < NMAX; i++) {
